@@ -5,7 +5,8 @@
 (* (steps = rate * gap) while the gaps vary.                                *)
 EXTENDS U64, Json, TLC
 CONSTANTS D, Mode, GapMs, StepSet, RatePerMs,
-          BigStart     \* TRUE: the position first jumps to 2^63 (then reset_eta): small steps far above 2^53
+          BigStart,    \* TRUE: the position first jumps to 2^63 (then reset_eta): small steps far above 2^53
+          NearEnd      \* TRUE: length 10^15, the position first jumps to 10^6 before the end (then reset_eta): the remaining work is tiny relative to the length
 VARIABLES hist, n, pos, sinceReset, fin, done
 vars == <<hist, n, pos, sinceReset, fin, done>>
 
@@ -16,10 +17,13 @@ Steps(k) == IF k = "1" THEN FromSmall(1) ELSE IF k = "e3" THEN FromSmall(1000) E
 
 Lens == {MulSmall(MulSmall(FromSmall(1000000), 1000), 1000), MaxU64}      \* 10^12, u64::MAX
 P63 == <<0, 0, 0, 0, 8>>
-Init == /\ \E l \in (IF BigStart THEN {MaxU64} ELSE Lens \cup {Zero}) :
+L15 == MulSmall(MulSmall(MulSmall(FromSmall(1000000), 1000), 1000), 1000)      \* 10^15
+PNear == Sub(L15, FromSmall(1000000))
+Init == /\ \E l \in (IF BigStart THEN {MaxU64} ELSE IF NearEnd THEN {L15} ELSE Lens \cup {Zero}) :
              hist = <<[op |-> "new", nolen |-> l = Zero, len |-> l]>>
-                    \o (IF BigStart THEN <<Adv(1), [op |-> "upd", steps |-> P63], [op |-> "reset_eta"]>> ELSE <<>>)
-        /\ n = 0 /\ pos = (IF BigStart THEN P63 ELSE Zero) /\ sinceReset = FALSE /\ fin = FALSE /\ done = FALSE
+                    \o (IF BigStart THEN <<Adv(1), [op |-> "upd", steps |-> P63], [op |-> "reset_eta"]>>
+                        ELSE IF NearEnd THEN <<Adv(1), [op |-> "upd", steps |-> PNear], [op |-> "reset_eta"]>> ELSE <<>>)
+        /\ n = 0 /\ pos = (IF BigStart THEN P63 ELSE IF NearEnd THEN PNear ELSE Zero) /\ sinceReset = FALSE /\ fin = FALSE /\ done = FALSE
 
 (* one generator step = a few driver operations *)
 Update == \E g \in GapMs :
